@@ -54,6 +54,8 @@ TemplateUnits(tpl, i, tgt) ==
     [] tpl = "ijmp"  -> << <<"op", 2, 10 * i + 1>>, <<"ijmp">> >>
     [] tpl = "icall" -> << <<"op", 2, 10 * i + 1>>, <<"icall">> >>
     [] tpl = "ref"   -> << <<"ref", tgt, 0>>, <<"op", 1, 10 * i + 1>> >>
+    \* an empty code block (a label with nothing behind it); passive: no request names it
+    [] tpl = "z0"    -> <<>>
     [] tpl = "d3"    -> << <<"d", 3, 10 * i + 1>> >>
     [] tpl = "dq"    -> << <<"d", 2, 10 * i + 1>>, <<"dq", tgt, 4>> >>
 IsData(tpl) == tpl \in {"d3", "dq"}
@@ -86,7 +88,7 @@ FirstBoundary(units) == UnitSize(units[1])
 TotalSize(units) == LET f[i \in 0..Len(units)] == IF i = 0 THEN 0 ELSE f[i - 1] + UnitSize(units[i]) IN f[Len(units)]
 Start7 == << <<"cfi_startproc">>, <<"cfi_def_cfa", 7, 8>> >>
 CfiOf(cl, i, nb, units, isData) ==
-  IF isData \/ cl = "none" THEN <<>>
+  IF isData \/ cl = "none" \/ units = <<>> THEN <<>>
   ELSE LET n == TotalSize(units)
            o1 == FirstBoundary(units)
        IN CASE cl = "proc_each" -> << <<0, Start7>>, <<n, << <<"cfi_endproc">> >> >> >>
@@ -134,6 +136,11 @@ ShapeParams ==
      /\ \A i \in (p.nb + 1)..MaxBlocks : p.tpl[i] = CHOOSE x \in Templates : TRUE
      /\ p.tgt <= p.nb
      /\ ~IsData(p.tpl[p.tgt])
+     \* functions, end symbols and CFI sit on non-empty blocks
+     /\ (p.layout # "none" => \A i \in 1..p.nb : p.tpl[i] # "z0" \/ (i > 1 /\ p.layout \in {"one", "tail"}))
+     /\ \A i \in p.es : p.tpl[i] # "z0"
+     /\ (p.cl # "none" => \A i \in 1..p.nb : p.tpl[i] # "z0")
+     /\ (\E i \in 1..p.nb : p.tpl[i] # "z0")
      /\ p.es \subseteq 1..p.nb
      /\ (p.es # {} => TRUE \in EndSyms) /\ Cardinality(p.es) <= 1
      /\ p.ns \subseteq 1..p.nb /\ Cardinality(p.ns) <= 1 /\ p.tgt \notin p.ns
@@ -316,7 +323,8 @@ Candidates(sh) ==
             B == ShapeBoundaries(b)
             code == b.kind = "code"
         IN
-          IF WholeOnly
+          IF ShapeSize(b) = 0 THEN {}
+          ELSE IF WholeOnly
           THEN {[op |-> "del", blk |-> i, off |-> 0, len |-> ShapeSize(b), proxy |-> px, pk |-> ""] :
                    px \in (IF WithProxyDel THEN {TRUE, FALSE} ELSE {FALSE})}
                \cup {[op |-> "ins", blk |-> i, off |-> 0, len |-> 0, proxy |-> FALSE, pk |-> k] :
